@@ -599,9 +599,10 @@ func cliErrAnswer(err error, items []cliItem) string {
 // kmipclient has two of them: DialContext and DialClusterContext (dialer_cluster.go), which repeats the body
 // of the former (options, default version list, enforced version, discovery exchange). Both are driven with
 // the same cases and produce the same protocol lines: the model knows one `Dial`.
-//   'd' DialContext
-//   'c' DialClusterContext, two addresses, WithRetryTimeout given
-//   'C' DialClusterContext, two addresses, default retry timeout (no WithRetryTimeout option)
+//
+//	'd' DialContext
+//	'c' DialClusterContext, two addresses, WithRetryTimeout given
+//	'C' DialClusterContext, two addresses, default retry timeout (no WithRetryTimeout option)
 const cliDialEntries = "dcC"
 
 func cliDial(entry byte, ctx context.Context, opts []kmipclient.Option) (*kmipclient.Client, error) {
@@ -2244,6 +2245,91 @@ func respReplay(ctx *Ctx, env *respEnv, l string) {
 	}
 }
 
+// respThenForks: a Then-chain is a VALUE (BatchExec, value receivers): a caller may keep a prefix and extend it
+// twice. Each of the two chains must send ITS OWN operations and return, at every position, the response type
+// of the operation requested there — against a server that answers every request item by item with the
+// response payload of the operation it was sent (impl-only lines: the model has no builders).
+func respThenForks(env *respEnv) {
+	ctx := env.ctx
+	cl, obs, _ := env.client(true)
+	if cl == nil {
+		return
+	}
+	obs.setInject(func(req *kmip.RequestMessage) (*kmip.ResponseMessage, error, bool) {
+		return cliActivateAnswer(req), nil, true
+	})
+	defer obs.setInject(nil)
+	type step struct {
+		op uint32
+		f  func(c *kmipclient.Client) kmipclient.PayloadBuilder
+	}
+	steps := []step{
+		{cliOpDestroy, func(c *kmipclient.Client) kmipclient.PayloadBuilder { return c.Destroy("id-2") }},
+		{cliOpGet, func(c *kmipclient.Client) kmipclient.PayloadBuilder { return c.Get("id-3") }},
+		{cliOpActivate, func(c *kmipclient.Client) kmipclient.PayloadBuilder { return c.Activate("id-4") }},
+		{uint32(kmip.OperationRevoke), func(c *kmipclient.Client) kmipclient.PayloadBuilder {
+			return c.Revoke("id-5")
+		}},
+	}
+	tails := []step{
+		{cliOpLocate, func(c *kmipclient.Client) kmipclient.PayloadBuilder { return c.Locate() }},
+		{uint32(kmip.OperationQuery), func(c *kmipclient.Client) kmipclient.PayloadBuilder { return c.Query() }},
+	}
+	for n := 1; n <= 8; n++ { // operations in the common prefix after the first one
+		ops := []uint32{cliOpActivate}
+		prefix := cl.Activate("id-1").Then(steps[0].f)
+		ops = append(ops, steps[0].op)
+		for k := 1; k < n; k++ {
+			st := steps[k%len(steps)]
+			prefix = prefix.Then(st.f)
+			ops = append(ops, st.op)
+		}
+		chains := []kmipclient.BatchExec{prefix.Then(tails[0].f), prefix.Then(tails[1].f)}
+		line := fmt.Sprintf("#then.fork prefix=%s tails=%d,%d", cliOpsStr(ops), tails[0].op, tails[1].op)
+		ctx.current = line
+		var answers []string
+		for ci, ch := range chains {
+			want := append(append([]uint32(nil), ops...), tails[ci].op)
+			obs.take()
+			rctx, cancel := context.WithTimeout(context.Background(), 5*time.Second)
+			out, pn := guard("Then-chain Exec", func() respOutcome { return respBatch(ch.ExecContext(rctx)) })
+			cancel()
+			var sent []uint32
+			for _, ev := range obs.take() {
+				sent = ev.seen.ops
+			}
+			switch {
+			case pn != "":
+				cliViolate(ctx, "C12", "no-panic", "then:panic "+panicKey(pn), "a forked Then-chain panicked: "+pn, line)
+				answers = append(answers, "panic")
+				continue
+			case out.err != nil || out.unwrapEr != nil:
+				// the server conforms to what it was sent: an error means the chain did not send its own operations
+				cliViolate(ctx, "C12", "conforming-accepted", "then:forked-chain-refused", fmt.Sprintf("chain %d (operations %s) sent %s and failed: %v %v", ci, cliOpsStr(want), cliOpsStr(sent), out.err, out.unwrapEr), line)
+				answers = append(answers, "err")
+				continue
+			}
+			got := make([]uint32, len(out.many))
+			bad := len(out.many) != len(want)
+			for i, p := range out.many {
+				if p != nil {
+					got[i] = uint32(p.Operation())
+				}
+				if i < len(want) && (p == nil || got[i] != want[i] || reflect.TypeOf(p) != cliExpectedType(want[i])) {
+					bad = true
+				}
+			}
+			if bad {
+				cliViolate(ctx, "C12", "payload-type", "then:forked-chain-returns-foreign-payload",
+					fmt.Sprintf("chain %d was built as %s; it sent %s and returned as success the payloads of operations %s", ci, cliOpsStr(want), cliOpsStr(sent), cliOpsStr(got)), line)
+			}
+			answers = append(answers, "ok "+cliOpsStr(got))
+		}
+		ctx.Add(line, strings.Join(answers, " / "), false, "C12")
+		ctx.Res.Count("resp.then-fork")
+	}
+}
+
 // respTables ties the model's registries to the Go ones and checks that EnumStr is unambiguous.
 func respTables(ctx *Ctx) {
 	cliInitTypes()
@@ -2471,6 +2557,8 @@ func runResp(ctx *Ctx) {
 			respCase(env, api, cliRT{hdr: rng.Pick(r, hdrs), items: []cliItem{rng.Pick(r, items), rng.Pick(r, items)}}, true)
 		}
 	}
+	// Then-chains sharing a prefix
+	respThenForks(env)
 	// the composite helper Signer / Sign (client_signer.go)
 	runSignerCases(env)
 	// the same calls by clients speaking the other protocol versions (the responses are then decoded under
